@@ -175,7 +175,7 @@ Init == \E k \in Range(Kinds) \cap SeedKinds, n \in BOOLEAN :
 \* wraps applied beyond depth 1 for "qw" seeds (both levels): one representative of every family (17)
 QuickWraps == {1, 4, 5, 6, 7, 11, 19, 22, 25, 27, 29, 30, 33, 35, 37, 44, 45}
 \* second-level wraps of the exhaustive (thorough) run: everything but near-duplicates
-ThoroughWraps2 == (1..NWraps) \ {2, 10, 14, 17, 18, 24, 26, 28, 32, 38, 39, 41, 42, 43, 46, 47}
+ThoroughWraps2 == (1..NWraps) \ {2, 8, 10, 13, 14, 17, 18, 20, 23, 24, 26, 28, 31, 32, 34, 36, 38, 39, 41, 42, 43, 46, 47}
 Wrap(w, n) == /\ d < MaxDepth
               /\ \/ d = 0
                  \/ DeepAll = "sim"
